@@ -121,7 +121,9 @@ impl DatagramState {
             Some(x) => *x,
         };
 
-        if datagram.data.len() > window {
+        // The peer was told `max_datagram_frame_size = min(window, u16::MAX)`, which limits the whole
+        // frame: at least one type byte on top of the payload
+        if datagram.size(false) > window.min(u16::MAX as usize) {
             return Err(TransportError::PROTOCOL_VIOLATION("oversized datagram"));
         }
 
